@@ -171,8 +171,10 @@ int main(int argc, char** argv) {
         (unsigned)strtoul(argv[4], nullptr, 10));
   }
   if (cmd == "sweep08" && argc >= 5) {
+    // optional: <b|x> <zone index> restricts the sweep to one zone (replay of a sweep finding)
     return sweepTzPairs((unsigned)strtoul(argv[2], nullptr, 10), (unsigned)strtoul(argv[3], nullptr, 10),
-        (unsigned)strtoul(argv[4], nullptr, 10));
+        (unsigned)strtoul(argv[4], nullptr, 10), argc >= 7 ? (argv[5][0] == 'x' ? 1 : 0) : -1,
+        argc >= 7 ? atoi(argv[6]) : -1);
   }
   if (cmd == "sweep13" && argc >= 4) {
     return sweepClockKeep((uint32_t)strtoul(argv[2], nullptr, 10), (uint32_t)strtoul(argv[3], nullptr, 10));
